@@ -126,9 +126,15 @@ Flat(x) ==
     ELSE <<>>
 
 FlowsOK(cs) == Len(cs) >= 1 /\ Len(cs) <= MaxFlows /\ AllNum(cs)
-DatesOK(ds) == /\ \A i \in 1..Len(ds) : ds[i].t = "date" /\ ds[i].fn = 0
-               /\ \A i \in 1..(Len(ds) - 1) : ds[i].s < ds[i + 1].s       \* strictly increasing
-Serials(ds) == [i \in 1..Len(ds) |-> ds[i].s]
+\* a date is given as a date or as its serial NUMBER (which may carry a time of day)
+DateNum(x) == IF x.t = "date" THEN Whole(x.s) ELSE x
+DateWhole(x) == (x.t = "date" /\ x.fn = 0) \/ (x.t = "num" /\ x.d = 1)
+DatesOK(ds) == /\ \A i \in 1..Len(ds) : (ds[i].t = "date" /\ ds[i].fn = 0) \/ (ds[i].t = "num" /\ ds[i].n >= ds[i].d /\ ds[i].d <= 24)
+               /\ \A i \in 1..(Len(ds) - 1) : RLt(DateNum(ds[i]), DateNum(ds[i + 1]))       \* strictly increasing
+\* whole serials; with a time of day among the dates the exponents are not whole years: a vector whose offsets are
+\* not multiples of 365 stands in, so that XnpvV stays exact where it can be (rate 0, one flow) and Open elsewhere
+Serials(ds) == IF \A i \in 1..Len(ds) : DateWhole(ds[i]) THEN [i \in 1..Len(ds) |-> DateNum(ds[i]).n]
+               ELSE [i \in 1..Len(ds) |-> IF i = 1 THEN 0 ELSE i]
 
 \* an initial outlay followed by returns that exceed it: one sign change
 \* (zeros ignored), negative part first, positive undiscounted sum
